@@ -28,6 +28,11 @@ pub fn slice_take_position(s: &[u8], n: usize, v: u8) -> (r: Option<usize>)
     }
 { s.iter().take(n).position(|c| *c == v) }
 
+// N9 stub: `std::array::from_fn(cb)`; assumed: returns an array (its N elements are placeholders)
+#[verifier::external_body]
+pub fn array_from_fn<T, const N: usize, F: FnMut(usize) -> T>(cb: F) -> (r: [T; N])
+{ std::array::from_fn(cb) }
+
 /// index of the first CR in b
 pub open spec fn first_cr(b: Seq<u8>) -> Option<int>
     decreases b.len()
@@ -211,8 +216,12 @@ IMPL('impl<T, const N: usize> ArrayVec<T, N>', raw='''
     /// the live elements (fields stay private: a type invariant requires it)
     pub closed spec fn view(&self) -> Seq<T> { self.arr@.subrange(0, self.len as int) }
 ''')
-FN('from_fn', props=['C10', 'C12'], ret='r', trusted=True,
-   ensures=[('assumed.ArrayVec.from_fn', 'r.view() =~= Seq::<T>::empty()')])
+# from_fn: verified from its real body; only `std::array::from_fn(cb)` is an N9 stub (Verus has no
+# spec for it and no FnMut support): assumed to return SOME [T; N] - what the placeholders are is
+# irrelevant, view() only exposes the first `len` of them
+FN('from_fn', props=['C10', 'C12', 'C16'], ret='r',
+   rewrites=[('N9', 'std::array::from_fn(cb)', 'array_from_fn::<T, N, _>(cb)')],
+   ensures=[('C10/C12/C16.ArrayVec.from_fn_starts_empty', 'r.view() =~= Seq::<T>::empty()')])
 FN('push', props=['C10', 'C12', 'C16'],
    requires=[('C12.arrayvec_push_capacity', 'old(self).view().len() < N')],
    ensures=[('aux.ArrayVec.push', 'final(self).view() == old(self).view().push(value)')],
